@@ -148,6 +148,11 @@ func luaStored(d Stored) string {
 	case "new":
 		set()
 		b.WriteString("return m2")
+	case "inplace":
+		// edits through the accessors, then hands the message back: the edits are the hook's answer
+		b.WriteString(`if msg.to[1] then msg.to[1].address = "inplace-to@a.test"; msg.to[1].name = "In Place" end; `)
+		b.WriteString(`if msg.from then msg.from.address = "inplace-from@a.test" end; `)
+		b.WriteString("return msg")
 	case "garbage":
 		b.WriteString("return 42")
 	case "error":
@@ -283,7 +288,7 @@ var addrG = rapid.Custom(func(t *rapid.T) hx.Addr {
 })
 
 var storedGen = rapid.Custom(func(t *rapid.T) Stored {
-	d := Stored{Kind: rapid.SampledFrom([]string{"keep", "rewrite", "rewrite", "new", "garbage", "error", "mutate-error", "mutate-error", "mutate-garbage", "mutate-nil"}).Draw(t, "skind")}
+	d := Stored{Kind: rapid.SampledFrom([]string{"keep", "rewrite", "rewrite", "new", "inplace", "inplace", "garbage", "error", "mutate-error", "mutate-error", "mutate-garbage", "mutate-nil"}).Draw(t, "skind")}
 	if d.Kind == "rewrite" || d.Kind == "new" {
 		if rapid.Bool().Draw(t, "setboxes") {
 			d.SetBoxes = true
@@ -668,6 +673,17 @@ func session(w *hx.World, c Case, cfg hx.Cfg, si int, res *result) {
 					}
 					if d.SetSubj {
 						subj = d.Subject
+					}
+				case "inplace":
+					res.nt = true
+					boxes = nil
+					for _, rc := range accepted {
+						l, _ := hx.SplitAddr(rc)
+						boxes = append(boxes, strings.ToLower(l))
+					}
+					from = &mail.Address{Name: from.Name, Address: "inplace-from@a.test"}
+					if len(to) > 0 {
+						to = append([]*mail.Address{{Name: "In Place", Address: "inplace-to@a.test"}}, to[1:]...)
 					}
 				case "error", "mutate-error", "mutate-garbage", "mutate-nil", "garbage":
 					res.nt = true
